@@ -172,11 +172,22 @@ def describe(obj, typ, var_names):
     return (repr(obj), otree)
 
 
+def _walk_or_none(walker, obj, stats):
+    """Degraded mode: if a refactor removed the private attribute names the structural walker reads,
+    structural comparisons are skipped (repr / == / evaluation comparisons remain) and the fact is
+    counted in the evidence instead of raising an alarm."""
+    try:
+        return walker(obj)
+    except S.WalkerUnavailable:
+        stats["walker_unavailable"] = stats.get("walker_unavailable", 0) + 1
+        return None
+
+
 def safe_describe(obj, typ, var_names):
     try:
         return describe(obj, typ, var_names)
     except S.WalkerUnavailable:
-        return (repr(obj),)
+        return (_strip_point(repr(obj)),)
     except (S.Cyclic, RecursionError) as e:
         return ("pathological-structure", type(e).__name__)
 
@@ -511,7 +522,7 @@ class Run:
             return cache[name]
         w = self.world
         typ = w.types[name]
-        if mode == "snapshot" and typ == E:
+        if mode == "snapshot" and typ == E and self.snap[name]["table"] is not None:
             obj = S.build_table(*self.snap[name]["table"])
         elif name[0] == "n":
             obj = self._fresh_node(int(name[1:]), cache)
@@ -651,11 +662,12 @@ class Run:
         typ = w.types[name]
         snap = {"type": typ, "repr": repr(obj)}
         if typ == E:
-            snap["tree"] = S.tree_of(obj)
-            snap["table"] = S.table_of(obj)      # structure *with* its internal sharing, for twins
+            snap["tree"] = _walk_or_none(S.tree_of, obj, self.stats)
+            # structure *with* its internal sharing, for twins
+            snap["table"] = _walk_or_none(S.table_of, obj, self.stats)
         else:
             orig = getattr(obj, "_original_expression", None)
-            snap["otree"] = S.tree_of(orig) if orig is not None else None
+            snap["otree"] = _walk_or_none(S.tree_of, orig, self.stats) if orig is not None else None
             snap["var"] = getattr(obj, "_variable_name", None)
             if typ == L:
                 snap["comps"] = tuple((v, _safe_num(lambda v=v: obj.component(v))) for v in w.var_names)
@@ -686,13 +698,13 @@ class Run:
             if r != snap["repr"]:
                 return self._viol("C10", "repr-changed", step, f"{name}: repr {snap['repr']!r} -> {r!r}")
             if typ == E:
-                t = S.tree_of(obj)
+                t = _walk_or_none(S.tree_of, obj, self.stats)
                 if t != snap["tree"]:
                     return self._viol("C10", "structure-changed", step,
                                       f"{name}: {S.tree_str(snap['tree'])} -> {S.tree_str(t)}")
             else:
                 orig = getattr(obj, "_original_expression", None)
-                t = S.tree_of(orig) if orig is not None else None
+                t = _walk_or_none(S.tree_of, orig, self.stats) if orig is not None else None
                 if t != snap["otree"]:
                     return self._viol("C10", "structure-changed", step, f"{name}: held expression changed")
                 if getattr(obj, "_variable_name", None) != snap["var"]:
@@ -725,7 +737,7 @@ class Run:
         for name, snap in self.snap.items():
             obj = w.objs[name]
             typ = snap["type"]
-            if typ == E:
+            if typ == E and snap["table"] is not None:
                 twin = S.build_table(*snap["table"])
             else:
                 try:
